@@ -19,13 +19,15 @@ class LambdaTokenTranslator(AbstractTranslator):
         condition_value = literal
 
         if literal:
-            parsed_literal = re.findall(r'^\'(>=|<=|>|<|<>)((\d+)((\.)(\d+))?(e(-?\d+))?)?\'$', literal)
+            parsed_literal = re.findall(r'^\'(>=|<=|<>|>|<|=)((\d+)((\.)(\d+))?(e(-?\d+))?)?\'$', literal)
             if parsed_literal:
                 parsed_literal = parsed_literal[0]
                 if parsed_literal[0]:
                     condition_symbol = parsed_literal[0]
                     if condition_symbol == '<>':
                         condition_symbol = '!='
+                    elif condition_symbol == '=':
+                        condition_symbol = '=='
 
                 if parsed_literal[1]:
                     condition_value = parsed_literal[1]
